@@ -40,7 +40,7 @@ import re
 
 from ..cfg import CFG, branch_facts
 from ..core import (AnalysisError, call_name, const_str, dotted, find_calls,
-                    is_name, is_self_attr, kwarg, last_attr, names_in,
+                    is_name, is_self_attr, kwarg, last_attr, link, names_in,
                     qualname, short, txt, walk)
 from ..normalize import expand_locals
 from ..lib_C14 import (BASIN_TYPES, CORE, DCORBASE, FB, FDICT, H5BASE,
@@ -947,34 +947,82 @@ def _check_get_dicts(ctx, repo, rel, q, f):
                "DCOR server (assumption)", node=f, label=lab,
                nontrivial=False)
         return
-    # delegation to a helper of the same class
-    target = f
-    if len(rets) == 1 and isinstance(rets[0].value, ast.Call) and isinstance(
-            rets[0].value.func, ast.Attribute) and is_name(
-            rets[0].value.func.value, "self"):
-        cls_q = q.rsplit(".", 1)[0]
-        target = repo.func(rel, cls_q + "." + rets[0].value.func.attr)
+    # the implementation and the helpers of the same class whose result it
+    # returns (directly or through a local)
+    cls_q = q.rsplit(".", 1)[0]
+    funcs = [f]
+    for c in [n for n in walk(f) if isinstance(n, ast.Call)]:
+        fn = c.func
+        if isinstance(fn, ast.Attribute) and isinstance(
+                fn.value, ast.Name) and fn.value.id in (
+                "self", "cls", cls_q.split(".")[-1]):
+            h = repo.func(rel, cls_q + "." + fn.attr, missing_ok=True)
+            if h is not None and h is not f and h not in funcs:
+                funcs.append(h)
     appended = []
-    for lp in [n for n in walk(target) if isinstance(n, ast.For)]:
-        if not isinstance(lp.target, ast.Name):
-            continue
-        for c in find_calls(lp, attr="append"):
-            if c.args and isinstance(c.args[0], ast.Name):
-                d = c.args[0].id
-                keyed = [n for n in walk(lp) if isinstance(n, ast.Assign)
-                         and is_key(n.targets[0], d, "key")
-                         and is_name(n.value, lp.target.id)
-                         and n.lineno < c.lineno]
-                appended.append((c, bool(keyed)))
+    for target in funcs:
+        for lp in [n for n in walk(target) if isinstance(n, ast.For)]:
+            if not isinstance(lp.target, ast.Name):
+                continue
+            for c in find_calls(lp, attr="append"):
+                if c.args and isinstance(c.args[0], ast.Name):
+                    d = c.args[0].id
+                    keyed = [n for n in walk(lp) if isinstance(n, ast.Assign)
+                             and is_key(n.targets[0], d, "key")
+                             and is_name(n.value, lp.target.id)
+                             and n.lineno < c.lineno]
+                    appended.append((c, bool(keyed), target))
     if not appended:
         raise AnalysisError(f"{rel}::{q}: cannot see how the definitions are "
                             f"built")
-    ok = all(k for _, k in appended)
+    ok = all(k for _, k, _ in appended)
     ctx.ob("R14.2", ok,
            "every definition gets key = name of its HDF5 dataset" if ok else
            "a definition is returned without `key`: it can never be "
-           "recognised as already visited", node=target,
+           "recognised as already visited", node=appended[0][2],
            key=f"{rel}::{q}::{lab}")
+    # the key is a function of the definition only: a component taken from
+    # the dataset that happens to read it (its path, identifier, ...) gives
+    # the same definition another key on the next round of a cycle – unless
+    # it is a location that is resolved to a canonical spelling first
+    NORMALISERS = ("resolve", "realpath", "samefile")
+    bad = []
+    n_keys = 0
+    for target in funcs:
+        for n in walk(target):
+            if not (isinstance(n, ast.Assign) and any(
+                    isinstance(t, ast.Subscript) and const_str(
+                        t.slice) == "key" for t in n.targets)):
+                continue
+            n_keys += 1
+            vt = ast.parse(expand_locals(target, n.value),
+                           mode="eval").body
+            link(vt)
+            for x in ast.walk(vt):
+                if isinstance(x, ast.Attribute) and is_name(x.value, "self"):
+                    norm = False
+                    y = x
+                    while getattr(y, "parent", None) is not None:
+                        y = y.parent
+                        if isinstance(y, ast.Call) and last_attr(
+                                y) in NORMALISERS:
+                            norm = True
+                    if not norm:
+                        bad.append((n, f"self.{x.attr}"))
+    if n_keys == 0:
+        if ok:
+            raise AnalysisError(f"{rel}::{q}: key assignment not found")
+        return      # already reported: the definitions carry no key
+    ctx.ob("R14.2", not bad,
+           "the key of a definition depends on the definition only (name of "
+           "its HDF5 dataset)" if not bad else
+           f"`{short(bad[0][0], 60)}` mixes `{bad[0][1]}` of the reading "
+           f"dataset into the key without resolving it: the same definition "
+           f"reached again through another spelling of the location (e.g. "
+           f"../-relative paths joined by basins_retrieve) gets a new key, "
+           f"so a cycle is never recognised and never cut",
+           node=bad[0][0] if bad else appended[0][2],
+           key=f"{rel}::{q}::key depends on the definition only")
 
 
 # ----------------------------------------------------------------------
@@ -1682,7 +1730,8 @@ def run(ctx):
              minimum=19)
     ctx.rule("R14.2", "cycle cut: ignore test dominates instantiation, own + "
              "inherited keys handed down and installed before use, list only "
-             "grows, definitions carry keys; locks not re-entered", minimum=30)
+             "grows, definitions carry keys that depend on the definition only; "
+             "locks not re-entered", minimum=31)
     ctx.rule("R14.3", "identifier law: equality / referrer.startswith(basin), "
              "asserted before data, file basins verified, chain not "
              "overridden, writer agrees", minimum=18)
@@ -1816,6 +1865,19 @@ MUTANTS = [
     ("ignore_basins replaces the list", CORE,
      ("        self._basins_ignored += basin_identifiers\n",
       "        self._basins_ignored = basin_identifiers\n"), "R14.2"),
+    ("basin key qualified with the reader's path (seeded C14_7)", H5BASE,
+     ("        return self.basin_get_dicts_from_h5file(self.h5file)\n",
+      "        basins = self.basin_get_dicts_from_h5file(self.h5file)\n"
+      "        for bdict in basins:\n"
+      "            bdict[\"key\"] = f\"{self.path}::{bdict['key']}\"\n"
+      "        return basins\n"), "R14.2"),
+    ("basin key qualified with the random dataset identifier", H5BASE,
+     ("        return self.basin_get_dicts_from_h5file(self.h5file)\n",
+      "        basins = self.basin_get_dicts_from_h5file(self.h5file)\n"
+      "        prefix = self.identifier\n"
+      "        for bdict in basins:\n"
+      "            bdict[\"key\"] = prefix + \"-\" + bdict[\"key\"]\n"
+      "        return basins\n"), "R14.2"),
     ("HDF5 definitions without key", H5BASE,
      ('            bdict["key"] = bk\n', ""), "R14.2"),
     ("RTDC_HDF5.__init__ evaluates features", H5BASE,
@@ -2144,6 +2206,10 @@ TWINS = [
       "        self._ds.ignore_basins(seen_basin_keys)\n"
       "        return self._ds\n")),
     ("ignore keys collected by a loop and extend()", CORE, _twin_key_loop),
+    ("definitions returned through a local", H5BASE,
+     ("        return self.basin_get_dicts_from_h5file(self.h5file)\n",
+      "        definitions = self.basin_get_dicts_from_h5file(self.h5file)\n"
+      "        return definitions\n")),
     ("file basins appended by a static helper with early return", CORE,
      _twin_append_verified),
     ("basin loop over a filtering generator expression", CORE,
